@@ -24,7 +24,10 @@ T_COMMON = [(r'tdims$|^std::array<long, \d+>', 'struct nv_dims'),
             (r'tensor_t<nano::tensor_vector_storage_t, (double|long), \d|tensor_vector_storage_t<(double|long), \d|tensor_base_t<(double|long), \d', 'struct nv_tensor'),
             (r'ios_base::iostate$|_Ios_Iostate$', 'int32_t'),
             (r'Matrix<(double|long), -1, 1, 0.*>::Scalar$', 'NV_SCALAR')]
-T_IN = [(r'basic_istream<char|^std::istream$|basic_ios<char', 'struct nv_istream')] + T_COMMON
+T_STL = [(r'^std::string$|^std::basic_string<char>$', 'struct nv_string'), (r'^std::vector<int>$', 'struct nv_vec_i32'),
+         (r'basic_string<char>::iterator$|__normal_iterator<char \*', 'struct nv_sit'), (r'vector<int>::iterator$|__normal_iterator<int \*', 'struct nv_vit'),
+         (r'basic_string<char>::size_type$', 'uint64_t')]
+T_IN = T_STL + [(r'basic_istream<char|^std::istream$|basic_ios<char', 'struct nv_istream')] + T_COMMON
 T_OUT = [(r'basic_ostream<char|^std::ostream$|basic_ios<char', 'struct nv_ostream')] + T_COMMON
 
 # ------------------------------------------------------------------------------------------------ call maps (reader)
@@ -37,10 +40,19 @@ C_IN = [(r'^read\|std::istream &\(std::istream &, unsigned int &\)', '(*read_u32
         (r'^read\|std::istream &\(std::istream &, long \*, long\)', '(*read_ptr_i64({&0}, {1}, {2}))'),
         (r'^read_cast\|std::istream &\(std::istream &, long &\)', '(*read_cast_i32_i64({&0}, {&1}))'),
         (r'^read_cast\|std::istream &\(std::istream &, long \*, const unsigned long\)', '(*read_cast_n({&0}, {1}, {2}))'),
+        (r'^read\|std::istream &\(std::istream &, std::string &\)', '(*read_string({&0}, {&1}))'),
         (r'^operator!\|bool \(\) const\|std::basic_ios<char>', 'nv_ios_not({&0})'),
+        (r'^operator!=\|bool \(const __normal_iterator', '({0}.i != {1}.i)'),
+        (r'^operator\+\+\|.*__normal_iterator', '(++{0}.i)'),
+        (r'^operator\*\|.*__normal_iterator<char', '(*nv_sit_deref({&0}))'),
+        (r'^operator\*\|.*__normal_iterator<int', '(*nv_vit_deref({&0}))'),
         (r'^hash_version\|', 'hash_version()'),
         (r'^hash\|uint64_t \(const (double|long) \*, const long\)', 'nv_hash({0}, {1})')]
-M_IN = [(r'^setstate\|std::basic_ios<char>', 'nv_ios_setstate({self}, {0})'),
+M_IN = [(r'^begin\|std::(string|basic_string<char>)', 'nv_string_begin({self})'), (r'^end\|std::(string|basic_string<char>)', 'nv_string_end({self})'),
+        (r'^begin\|std::vector<int>', 'nv_vec_i32_begin({self})'), (r'^end\|std::vector<int>', 'nv_vec_i32_end({self})'),
+        (r'^resize\|std::(string|basic_string<char>)', 'nv_string_resize({self}, {0})!'),
+        (r'^resize\|std::vector<int>', 'nv_vec_i32_resize({self}, {0})!'),
+        (r'^setstate\|std::basic_ios<char>', 'nv_ios_setstate({self}, {0})'),
         (r'^read\|std::(basic_)?istream', '(*nv_istream_read({self}, {0}, {1}))'),
         (r'^data\|std::array<long', '{self}->d'),
         (r'^resize\|nano::tensor_vector_storage_t', 'nv_tensor_resize({self}, {&0})!'),
@@ -67,10 +79,56 @@ def read_castn(): return Fn('read_cast_n', TU, 'read_cast', flt='nano::read_cast
 def hash_version(): return Fn('hash_version', TU, 'hash_version', flt='nano::detail::hash_version', uf_float=False)
 
 
+# ------------------------------------------------------------------------------------------------ call maps (writer)
+C_OUT = [(r'^write\|std::ostream &\(std::ostream &, unsigned int\)', '(*write_u32({&0}, {1}))'),
+         (r'^write\|std::ostream &\(std::ostream &, int\)', '(*write_i32({&0}, {1}))'),
+         (r'^write\|std::ostream &\(std::ostream &, unsigned long\)', '(*write_u64({&0}, {1}))'),
+         (r'^write\|std::ostream &\(std::ostream &, const double \*, const long\)', '(*write_ptr_f64({&0}, {1}, {2}))'),
+         (r'^write\|std::ostream &\(std::ostream &, const long \*, const long\)', '(*write_ptr_i64({&0}, {1}, {2}))'),
+         (r'^write_cast\|std::ostream &\(std::ostream &, const long \*, const unsigned long\)', '(*write_cast_n({&0}, {1}, {2}))'),
+         (r'^operator!\|bool \(\) const\|std::basic_ios<char>', 'nv_oios_not({&0})'),
+         (r'^hash_version\|', 'hash_version()'),
+         (r'^hash\|uint64_t \(const (double|long) \*, const long\)', 'nv_hash({0}, {1})')]
+M_OUT = [(r'^setstate\|std::basic_ios<char>', 'nv_oios_setstate({self}, {0})'),
+         (r'^write\|std::(basic_)?ostream', '(*nv_ostream_write({self}, {0}, {1}))'),
+         (r'^data\|std::array<long', '{self}->d'),
+         (r'^data\|nano::tensor_vector_storage_t', 'nv_tensor_data({self})'),
+         (r'^size\|nano::tensor_base_t', 'nv_tensor_size({self})'),
+         (r'^dims\|nano::tensor_base_t', '(*{self}).m_dims')]
+OUT = dict(types=T_OUT, calls=C_OUT, members=M_OUT, uf_float=False)
+
+
+def wr_scalar(cname, cxx):
+    return Fn(cname, TU, 'write', flt='nano::write', select=ptypes('std::ostream &', cxx), **OUT)
+
+
+def wr_ptr(cname, cxx):
+    return Fn(cname, TU, 'write', flt='nano::write', select=ptypes('std::ostream &', 'const ' + cxx + ' *', 'const long'), **OUT)
+
+
+def write_u32(): return wr_scalar('write_u32', 'unsigned int')
+def write_i32(): return wr_scalar('write_i32', 'int')
+def write_u64(): return wr_scalar('write_u64', 'unsigned long')
+def write_castn(): return Fn('write_cast_n', TU, 'write_cast', flt='nano::write_cast', select=ptypes('std::ostream &', 'const long *', 'const unsigned long'), **OUT)
+
+
+def tensor_write(cname, scalar, rank):
+    return Fn(cname, TU, 'write', flt='nano::write', select=targs('?', scalar, str(rank)), **OUT)
+
+
+def read_string(): return Fn('read_string', TU, 'read', flt='nano::read', select=lambda d: astload.param_types(d) == ['std::istream &', 'std::string &'], **IN)
+def read_vec_i32(): return Fn('read_vec_i32', TU, 'read', flt='nano::read', select=ptypes('std::istream &', 'std::vector<int> &'), **IN)
+def hash_combine(): return Fn('hash_combine', TU, 'hash_combine', flt='nano::detail::hash_combine', uf_float=False)
+def hash_fn(cname, scalar):
+    return Fn(cname, TU, 'hash', flt='nano::detail::hash', select=targs(scalar, 'long'), uf_float=False,
+              calls=[(r'^hash_combine\|', 'hash_combine({0}, {1})')])
+
+
 def tensor_read(cname, scalar, rank):
     return Fn(cname, TU, 'read', flt='nano::read', select=targs('?', scalar, str(rank)), **IN)
 
 
+CADICAL = ['--sat-solver', 'cadical']
 NV_UNWIND = 6   # > max rank + 1: the dims loops of read_cast / write_cast are unwound completely (unwinding assertions on)
 INST = [('f64', 'double', 1), ('f64', 'double', 2), ('f64', 'double', 4), ('i64', 'long', 1)]
 
@@ -86,13 +144,34 @@ def build(tier):
         Target('read_cast_n', [read_castn(), read_cast1(), read_i32()], P),
         Target('read_ptr_f64', [rd_ptr('read_ptr_f64', 'double')], P),
     ]
-    # ---- tensor readers
+    NOCONV = ['--bounds-check', '--pointer-check', '--div-by-zero-check', '--signed-overflow-check', '--pointer-overflow-check']
+    targets += [
+        Target('write_u32', [write_u32()], P),
+        Target('write_u64', [write_u64()], P),
+        Target('write_i32', [write_i32()], P),
+        # write_cast narrows by design (static_cast<int32_t>): the contract says so, hence no conversion check here; the
+        # tensor writer targets keep it on and discharge it from the stated dims < 2^31 precondition
+        Target('write_cast_n', [write_castn(), write_i32()], P, checks=NOCONV),
+        Target('write_ptr_f64', [wr_ptr('write_ptr_f64', 'double')], P),
+    ]
+    targets += [
+        Target('read_string', [read_string(), read_u32(), read_char()], P),
+        Target('read_vec_i32', [read_vec_i32(), read_u64(), read_i32()], P),
+    ]
+    targets += [
+        Target('hash_combine', [hash_combine()], P),
+        Target('hash_f64', [hash_fn('hash_f64', 'double'), hash_combine()], D + 'hash_f64.h'),
+        Target('hash_i64', [hash_fn('hash_i64', 'long'), hash_combine()], D + 'hash_i64.h', checks=NOCONV),
+    ]
+    # ---- tensor readers / writers
     for tag, scalar, rank in INST:
         pre = f'{D}tensor_{tag}_{rank}.h'
         deps = lambda: [read_u32(), read_u64(), read_castn(), read_cast1(), read_i32(), rd_ptr('read_ptr_' + tag, scalar), hash_version()]
-        targets.append(Target(f'tensor_read_{tag}_{rank}', [tensor_read('tensor_read', scalar, rank)] + deps(), pre, loops=0, unwind=NV_UNWIND))
+        targets.append(Target(f'tensor_read_{tag}_{rank}', [tensor_read('tensor_read', scalar, rank)] + deps(), pre, loops=0, unwind=NV_UNWIND, cbmc_flags=CADICAL))
+        wdeps = [write_u32(), write_u64(), write_i32(), write_castn(), wr_ptr('write_ptr_' + tag, scalar), hash_version()]
+        targets.append(Target(f'tensor_write_{tag}_{rank}', [tensor_write('tensor_write', scalar, rank)] + wdeps, pre, loops=0, unwind=NV_UNWIND, cbmc_flags=CADICAL))
         if rank == 1:   # exact arithmetic (no product); for rank >= 2 the product is uninterpreted and a counterexample could be spurious
-            targets.append(Target(f'tensor_read_dims_{tag}_{rank}', [tensor_read('tensor_read_dims', scalar, rank)] + deps(), pre, loops=0, unwind=NV_UNWIND))
+            targets.append(Target(f'tensor_read_dims_{tag}_{rank}', [tensor_read('tensor_read_dims', scalar, rank)] + deps(), pre, loops=0, unwind=NV_UNWIND, cbmc_flags=CADICAL))
     return {
         'targets': targets, 'vcs': [],
         'decided': [],
